@@ -31,6 +31,10 @@ def _mk(rng, nq, nmark, depth):
     instrs = gen.rand_instrs(rng, nq, depth, barriers=rng.random() < 0.3, p2=0.4)
     for _ in range(nmark):
         instrs.insert(rng.randint(0, len(instrs)), {"name": "cut_wire", "qubits": [rng.randrange(nq)]})
+    if nq >= 2 and rng.random() < 0.25:
+        # an ordinary Move written by the user (qubit re-use): it is an instruction like any other, not a marker
+        for _ in range(rng.randint(1, 2)):
+            instrs.insert(rng.randint(0, len(instrs)), {"name": "move", "qubits": rng.sample(range(nq), 2)})
     return instrs
 
 
@@ -134,10 +138,21 @@ def oracle(kind, payload):
         return "an original qubit is missing from the transformed circuit"
     if [r.name for r in out.qregs] != [r.name for r in qc.qregs] or [r.name for r in out.cregs] != [r.name for r in qc.cregs]:
         return "registers were not carried over"
-    names_in = [i.operation.name for i in qc.data if i.operation.name != "cut_wire"]
-    names_out = [i.operation.name for i in out.data if i.operation.name not in ("move", "qpd_2q")]
-    if names_in != names_out:
-        return "non-marker instructions changed"
+    # walk both programs side by side: a marker corresponds to one inserted Move (plain, or wrapped as a cut placeholder by cut_wires);
+    # every other instruction — a Move written by the user included — must come out under its own name, in order
+    k = 0
+    for i in qc.data:
+        if k >= len(out.data):
+            return "instructions are missing from the transformed circuit"
+        nm_out = out.data[k].operation.name
+        if i.operation.name == "cut_wire":
+            if nm_out != ("qpd_2q" if payload["wrap"] else "move"):
+                return f"marker {i.operation.name} became {nm_out}"
+        elif nm_out != i.operation.name:
+            return f"non-marker instructions changed: {i.operation.name} became {nm_out}"
+        k += 1
+    if k != len(out.data):
+        return "extra instructions in the transformed circuit"
     obs = PauliList([o["l"][::-1] for o in payload["obs"]])
     exp_obs = expand_observables(obs, qc, out)
     letters = [p.to_label()[-out.num_qubits:][::-1] for p in exp_obs]
